@@ -77,7 +77,10 @@ func (c *fakeUDPClient) NewSession(ctx context.Context) (zerocopy.UDPClientSessi
 }
 
 // dnsAnswer builds a well-formed response to one query: one A / AAAA record inside the routed prefixes.
-func dnsAnswer(q []byte) []byte {
+func dnsAnswer(q []byte) []byte { return dnsAnswerOpt(q, false) }
+
+// dnsAnswerOpt: empty = a well-formed answer without records (NODATA).
+func dnsAnswerOpt(q []byte, empty bool) []byte {
 	var p dnsmessage.Parser
 	h, err := p.Start(q)
 	if err != nil {
@@ -90,11 +93,12 @@ func dnsAnswer(q []byte) []byte {
 	m := dnsmessage.Message{Header: dnsmessage.Header{ID: h.ID, Response: true, RecursionDesired: true, RecursionAvailable: true},
 		Questions: qs}
 	rh := dnsmessage.ResourceHeader{Name: qs[0].Name, Class: dnsmessage.ClassINET, TTL: 60}
-	switch qs[0].Type {
-	case dnsmessage.TypeA:
+	switch {
+	case empty:
+	case qs[0].Type == dnsmessage.TypeA:
 		rh.Type = dnsmessage.TypeA
 		m.Answers = []dnsmessage.Resource{{Header: rh, Body: &dnsmessage.AResource{A: [4]byte{10, 9, 9, 9}}}}
-	case dnsmessage.TypeAAAA:
+	case qs[0].Type == dnsmessage.TypeAAAA:
 		rh.Type = dnsmessage.TypeAAAA
 		m.Answers = []dnsmessage.Resource{{Header: rh, Body: &dnsmessage.AAAAResource{AAAA: [16]byte{0xfd, 0, 9: 9, 15: 9}}}}
 	}
@@ -106,7 +110,9 @@ func dnsAnswer(q []byte) []byte {
 }
 
 // dnsUpstream answers the length-prefixed queries handed to DialStream as initial payload.
-func dnsUpstream() *fakeInner {
+func dnsUpstream() *fakeInner { return dnsUpstreamOpt(false) }
+
+func dnsUpstreamOpt(empty bool) *fakeInner {
 	return &fakeInner{name: "dns-upstream", native: true, next: func(_ conn.Addr, payload []byte) (netio.Conn, error) {
 		var reply []byte
 		for len(payload) >= 2 {
@@ -114,7 +120,7 @@ func dnsUpstream() *fakeInner {
 			if len(payload) < 2+n {
 				break
 			}
-			if a := dnsAnswer(payload[2 : 2+n]); a != nil {
+			if a := dnsAnswerOpt(payload[2:2+n], empty); a != nil {
 				reply = binary.BigEndian.AppendUint16(reply, uint16(len(a)))
 				reply = append(reply, a...)
 			}
